@@ -22,10 +22,16 @@ Configs == <<"nil/0/0", "aes/2/1", "sm4/0/0", "gcm/3/2", "salsa20/10/3">>
 Targets == <<"dialled", "accepted">>
 N == Len(Methods)
 
+(* the out-of-band methods do nothing without FEC: a program that contains one of them rotates over the FEC-enabled classes only *)
+OOBMethods == {i \in 1..N : Methods[i] \in {"SetOOBHandler", "GetOOBMaxSize", "SendOOB"}}
+FecConfigs == <<2, 4, 5>>
+Rotating(i, j) == IF i \in OOBMethods \/ j \in OOBMethods THEN FecConfigs[((i * N + j) % Len(FecConfigs)) + 1]
+                  ELSE ((i * N + j) % Len(Configs)) + 1
+
 VARIABLE prog      \* [ms: sequence of method indices (non-decreasing), cfg: index, tgt: index]
 Init == /\ prog \in {[ms |-> <<i, j>>, cfg |-> c, tgt |-> t] : i \in 1..N, j \in 1..N, c \in 1..Len(Configs), t \in 1..Len(Targets)}
         /\ prog.ms[1] <= prog.ms[2]
-        /\ AllCombos \/ (/\ prog.cfg = ((prog.ms[1] * N + prog.ms[2]) % Len(Configs)) + 1
+        /\ AllCombos \/ (/\ prog.cfg = Rotating(prog.ms[1], prog.ms[2])
                          /\ prog.tgt = ((prog.ms[1] + prog.ms[2]) % Len(Targets)) + 1)
 (* a pair may be extended by a third method *)
 Next == /\ Len(prog.ms) = 2 /\ \E k \in 1..N : k >= prog.ms[2] /\ prog' = [prog EXCEPT !.ms = Append(@, k)]
